@@ -17,6 +17,23 @@ ASSUMPTIONS = ['orders 1..6 enumerated; sizes, ranks, entries symbolic', 'bit-id
 EXPLANATION = 'round-trip and copy postconditions on the real save/load/clone/detach/to/cpu/numpy'
 
 
+def bounded_checks(tier, seed, repo):
+    """validates the assumed torch.save / torch.load contract on real files (never counted as proved)"""
+    import json, os, subprocess
+    here = os.path.dirname(os.path.dirname(os.path.abspath(__file__)))
+    py = os.path.join(here, '.venv312', 'bin', 'python')
+    if not os.path.exists(py):
+        subprocess.run(['sh', os.path.join(here, 'setup.sh')], capture_output=True, text=True, timeout=600)
+    env = dict(os.environ, PYTHONPATH=repo, PYTHONWARNINGS='ignore')
+    p = subprocess.run([py, os.path.join(here, 'runtime', 'c19_roundtrip.py'), '--tier', tier, '--seed', str(seed)], env=env, capture_output=True, text=True, timeout=900)
+    lines = [l for l in p.stdout.splitlines() if l.startswith('RMODE-RESULT ')]
+    if not lines:
+        return [{'name': 'rmode.C19', 'error': (p.stdout + p.stderr)[-800:], 'evaluations': 0, 'failures': []}]
+    d = json.loads(lines[-1][len('RMODE-RESULT '):])
+    d['kind'] = 'bounded run-time contract (icontract) on real save/load round trips; validates the assumed torch.save/load contract; NOT counted as proved'
+    return [d]
+
+
 def grid(dmax):
     return [dict(d=d, ttm=t) for d in range(1, dmax + 1) for t in (False, True) if not (t and d > 4)]
 
